@@ -128,9 +128,10 @@ pub fn run(ctx: &Ctx) -> Report {
         A.with(|a| check_bytes(&mut a.borrow_mut(), &s, acc));
     });
     rep.absorb(acc);
-    let firsts: [u8; 8] = [0x00, 0x01, 0x02, 0x03, 0x04, 0x7f, 0x80, 0xff];
+    // quick: 8 boundary first bytes x a 2^12 lattice of tails; thorough: ALL 2^32 four-byte strings
+    let firsts: Vec<u8> = if ctx.quick() { vec![0x00, 0x01, 0x02, 0x03, 0x04, 0x7f, 0x80, 0xff] } else { (0..=255u8).collect() };
     let tail_bits = ctx.pick(12u32, 24);
-    let n2 = 8u64 << tail_bits;
+    let n2 = (firsts.len() as u64) << tail_bits;
     let acc = par_for(ctx, n2, 1 << 12, |i| format!("BYTES4#{i}"), |i, acc| {
         thread_local! { static A: std::cell::RefCell<Allocator> = std::cell::RefCell::new(Allocator::new()); }
         let f = firsts[(i >> tail_bits) as usize];
@@ -173,6 +174,7 @@ pub fn run(ctx: &Ctx) -> Report {
     rep.evaluations = rep.transitions + rep.acc.get("byte_strings") + rep.acc.get("integers");
     rep.traces = rep.evaluations;
     rep.nontrivial = rep.states + rep.acc.get("small_views") + rep.acc.get("integers");
-    rep.rule = format!("(a) the allocator BFS of C12 (depth {depth}) with the content oracle: after every transition every handle still valid per the model (including handles older than a restored checkpoint) reads back its recorded bytes/children through atom, atom_len, sexp, small_number, number, and atom_eq equals byte equality on every pair of live atoms; (b) fits_in_small_atom / small_number / new_atom for every byte string of BYTES(3), 4-byte strings with first byte in {{00,01,02,03,04,7f,80,ff}} x 2^{tail_bits} tails, BYTES(6,{{00,01,7f,80,ff}}), in inline and heap representation, against an independent minimal-encoding oracle; new_number/new_malachite_number/new_u64/new_i64/new_small_number for every integer in [-{ib},{ib}] and +-2^k+-d (k<=120): bytes == independent minimal two's-complement encoding and read back equal. Non-trivial = distinct BFS states + byte strings that have a small-integer view + integers.");
+    let nfirst = firsts.len();
+    rep.rule = format!("(a) the allocator BFS of C12 (depth {depth}) with the content oracle: after every transition every handle still valid per the model (including handles older than a restored checkpoint) reads back its recorded bytes/children through atom, atom_len, sexp, small_number, number, and atom_eq equals byte equality on every pair of live atoms; (b) fits_in_small_atom / small_number / new_atom for every byte string of BYTES(3), 4-byte strings ({nfirst} first bytes x 2^{tail_bits} tails; thorough = all 2^32), BYTES(6,{{00,01,7f,80,ff}}), in inline and heap representation, against an independent minimal-encoding oracle; new_number/new_malachite_number/new_u64/new_i64/new_small_number for every integer in [-{ib},{ib}] and +-2^k+-d (k<=120): bytes == independent minimal two's-complement encoding and read back equal. Non-trivial = distinct BFS states + byte strings that have a small-integer view + integers.");
     rep
 }
